@@ -38,14 +38,18 @@ ASSUMPTIONS = [
     "start_position < wLength and start_position <= descriptor length (continuation only after full packets)",
     "request level: legal host -- one SETUP at a time, IN tokens only while data is owed, ACK only after a complete "
     "packet and at least one cycle later, ACK may be lost (then the IN is repeated), status stage ends the request; "
+    "foreign ACK strobes (other endpoints' transactions) may occur between our transactions, but not while one of our own packets is still "
+    "unacknowledged (lost ACK, no later ACK for us) -- not even in the following request; "
     "wLength > 0; handshakes_in.nak/stall, rx and tokenizer inputs tied to 0",
     "tx.ready (the packet generator) is free every cycle",
 ]
 BOUNDS = "BMC from reset; quick: mps 8, handler level K=15 (start + latency + a full packet + stalls), request level " \
-         "K=22 (two packets + ZLP or a retry); thorough: mps 8/16 required (handler K=20/25 incl. a second request, request " \
-         "level K=30 = three packets at mps 8; mps 16 K=40 best effort), mps 32/64 best effort (K=mps+8, assertions only)"
+         "free tx.ready K=14 (first packet) and, with tx.ready tied to 1, K=24 (two packets + ZLP / a retry + status); thorough: mps 8/16 required (handler K=20/25 incl. a second request, request " \
+         "level free K=18, tx.ready=1 layer K=34 (three packets + retry) at mps 8; mps 16 K=44 best effort), mps 32/64 best effort (K=mps+8, assertions only)"
 OUTSIDE = "descriptors longer than 2*mps+3 bytes except in the suite collection; foreign ACK handshakes (for other " \
-          "endpoints) between a lost ACK and the retry (C08/C14 territory); SETUP arriving in the middle of a " \
+          "endpoints) while one of our packets is unacknowledged (C08/C14 territory; observed: a lost ACK leaves " \
+          "expecting_ack set across the status stage, so a foreign ACK early in the NEXT GET_DESCRIPTOR advances " \
+          "start_position before the first packet); SETUP arriving in the middle of a " \
           "request (C07); wLength == 0"
 
 
@@ -53,7 +57,8 @@ class HandlerHarness(Harness):
     """A: one descriptor handler, free request parameters"""
     domains = ("usb",)
 
-    def __init__(self, variant="block", kind="sparse", mps=8, ready_after_valid=False, const_req=True):
+    def __init__(self, variant="block", kind="sparse", mps=8, ready_after_valid=False, const_req=True,
+                 two_values=False):
         super().__init__()
         from luna.gateware.usb.usb2.descriptor import GetDescriptorHandlerBlock, GetDescriptorHandlerDistributed
         from luna.gateware.usb.request.standard import StandardRequestHandler
@@ -72,6 +77,13 @@ class HandlerHarness(Harness):
         self.value = self.inp("value", 16, const=const_req)
         self.length = self.inp("length", 16, const=const_req)
         self.sp = self.inp("start_position", 11, const=const_req)
+        self.two_values = two_values
+        if two_values:
+            # a second symbolic request (value, length, offset); every start picks one of the two
+            self.value_b = self.inp("value_b", 16, const=True)
+            self.length_b = self.inp("length_b", 16, const=True)
+            self.sp_b = self.inp("start_position_b", 11, const=True)
+            self.pick = self.inp("pick_b", 1)
         self.start = self.inp("start", 1)
         self.ready = self.inp("ready", 1)
         self.a_legal = self.assume("legal_request")
@@ -83,13 +95,24 @@ class HandlerHarness(Harness):
         m = Module()
         m.submodules.dut = dut = self.dut
         start = Signal(name="start_eff")
-        m.d.comb += [dut.value.eq(self.value), dut.length.eq(self.length), dut.start_position.eq(self.sp),
+        value, length, sp = self.value, self.length, self.sp
+        if self.two_values:
+            value, length, sp = Signal(16, name="value_eff"), Signal(16, name="length_eff"), Signal(11, name="sp_eff")
+            pick_l = Signal(name="pick_latched")
+            pick = Signal(name="pick_eff")
+            m.d.comb += [value.eq(Mux(pick, self.value_b, self.value)), length.eq(Mux(pick, self.length_b, self.length)),
+                         sp.eq(Mux(pick, self.sp_b, self.sp))]
+        m.d.comb += [dut.value.eq(value), dut.length.eq(length), dut.start_position.eq(sp),
                      dut.start.eq(start), dut.tx.ready.eq(self.ready)]
-        r = response_monitor(m, self, start=start, value=self.value, wlength=self.length, offset=self.sp,
+        r = response_monitor(m, self, start=start, value=value, wlength=length, offset=sp,
                              tx=dut.tx, stall=dut.stall, descs=self.descs, mps=self.mps)
+        if self.two_values:
+            m.d.comb += pick.eq(Mux(r.idle, self.pick, pick_l))
+            with m.If(r.idle):
+                m.d.usb += pick_l.eq(self.pick)
         m.d.comb += start.eq(self.start & r.idle)
-        m.d.comb += self.a_legal.eq(~start | (r.legal & ((self.sp % self.mps) == 0)))
-        m.d.comb += self.a_stable.eq(r.idle | ((self.value == r.g_val) & (self.length == r.g_w) & (self.sp == r.g_off)))
+        m.d.comb += self.a_legal.eq(~start | (r.legal & ((sp % self.mps) == 0)))
+        m.d.comb += self.a_stable.eq(r.idle | ((value == r.g_val) & (length == r.g_w) & (sp == r.g_off)))
         if self.ready_after_valid:
             seen = Signal(name="valid_prev")
             m.d.usb += seen.eq(dut.tx.valid)
@@ -129,6 +152,7 @@ class RequestHarness(Harness):
         self.do_ack = self.inp("do_ack", 1)
         self.drop_ack = self.inp("drop_ack", 1)
         self.do_status = self.inp("do_status", 1)
+        self.foreign_ack = self.inp("foreign_ack", 1)
         self.a_len = self.assume("wlength_nonzero")
         self.v_pid = self.viol("data_pid")
         self.c_retry = self.cover("retransmission")
@@ -149,6 +173,9 @@ class RequestHarness(Harness):
         npk = Signal(2, name="host_packets")
         last_n = Signal(range(mps + 1), name="host_last_n")
         retry = Signal(name="host_retry")
+        # one of our packets is still unacknowledged from the device's point of view (its ACK was lost and no later
+        # ACK for us was delivered); survives the end of the request
+        unacked = Signal(name="host_unacked")
         self.obs("host_state", hs); self.obs("host_offset", off)
 
         start = Signal(name="data_requested")
@@ -166,12 +193,20 @@ class RequestHarness(Harness):
         r = response_monitor(m, self, start=start, value=self.value, wlength=self.length, offset=off[:11],
                              tx=itf.tx, stall=itf.handshakes_out.stall, descs=self.descs, mps=mps)
         owed = (off < self.length) & r.idle
+        with m.If(self.drop_ack & (hs == 2) & ~self.do_ack):
+            m.d.usb += unacked.eq(1)
+        with m.Elif(((hs == 2) & self.do_ack) | r.done_stall):
+            m.d.usb += unacked.eq(0)
         with m.Switch(hs):
             with m.Case(H_IDLE):
                 with m.If(self.do_setup):
                     m.d.comb += setup_p.eq(1)
                     m.d.usb += [hs.eq(H_DATA), off.eq(0), acked.eq(0), retry.eq(0)]
             with m.Case(H_DATA):
+                # an ACK that belongs to another endpoint's transaction (the strobe is device wide); not between a
+                # lost ACK and its retry
+                with m.If(r.idle & self.foreign_ack & ~unacked & ~(self.do_in & owed)):
+                    m.d.comb += ack_p.eq(1)
                 with m.If(r.idle & self.do_in & owed):
                     m.d.comb += start.eq(1)
                     # a stall in the very cycle of the token ends the request
@@ -224,36 +259,51 @@ def queries(tier):
     qs = []
     quick = tier == "quick"
     if quick:
-        hcfg = [("block", "sparse", 8, 15), ("distributed", "sparse", 8, 15), ("mux", "sparse", 8, 15)]
-        rcfg = [(False, "sparse", 8, False, 22), (True, "sparse", 8, False, 22), (False, "sparse", 8, True, 20)]
+        hcfg = [("block", "sparse", 8, 15), ("distributed", "sparse", 8, 15), ("mux", "sparse", 8, 15),
+                ("block", "dense", 8, 14)]
+        rcfg = [(False, "sparse", 8, False, 24), (True, "sparse", 8, False, 24), (False, "sparse", 8, True, 24)]
     else:
         hcfg = [(v, k, 8, 18) for v in ("block", "distributed", "mux") for k in ("sparse", "dense")]
         hcfg += [(v, "sparse", 16, 25) for v in ("block", "distributed", "mux")]
         hcfg += [("block", "suite", 8, 16), ("distributed", "suite", 8, 16), ("block", "dense", 32, 40),
                  ("distributed", "sparse", 32, 40), ("block", "sparse", 64, 72), ("distributed", "dense", 64, 72)]
-        rcfg = [(False, "sparse", 8, False, 30), (True, "sparse", 8, False, 30), (False, "dense", 8, True, 30),
-                (True, "dense", 8, True, 30), (False, "sparse", 16, False, 40)]
+        rcfg = [(False, "sparse", 8, False, 34), (True, "sparse", 8, False, 34), (False, "dense", 8, True, 34),
+                (True, "dense", 8, True, 34), (False, "sparse", 16, False, 44)]
     stmt = ["payload", "first", "last", "gap", "zlp", "stall_exists", "data_nonexistent", "no_response", "spurious",
             "too_long"]
     for variant, kind, mps, K in hcfg:
         f = (lambda a=variant, b=kind, c=mps: HandlerHarness(a, b, c))
         tag = f"{variant}_{kind}_mps{mps}"
         big = mps >= 32
-        qs.append(Query(f"bmc_h_{tag}", f, K, timeout=900, split=not quick, required=not big,
+        qs.append(Query(f"bmc_h_{tag}", f, K, timeout=900, required=not big,
                         covers=[] if big else None,
                         desc=f"handler level {tag}: value/length/start_position symbolic constants of the run, "
                              "start timing and tx.ready free every cycle"))
         if quick and kind != "sparse":
             continue
         qs.append(Query(f"cosim_h_{tag}", f, 0, kind="cosim", cosim_cycles=200 if quick else 500))
+    for variant in (("mux",) if quick else ("mux", "block", "distributed")):
+        f2 = (lambda a=variant: HandlerHarness(a, "sparse", 8, two_values=True))
+        qs.append(Query(f"bmc_h2_{variant}_sparse_mps8", f2, 12 if (quick or variant != "mux") else 16, timeout=900, split=True,
+                        asserts=["stall_exists", "data_nonexistent", "no_response", "spurious", "zlp"],
+                        covers=["second_request", "stall", "short_packet"],
+                        desc=f"handler level {variant}: two different symbolic requests (value, length, offset), every start "
+                             "picks one of them: state carried from one request to the next (stall latches); "
+                             "stall/no-data/ZLP clauses only"))
     for ab, kind, mps, rt, K in rcfg:
         f = (lambda a=ab, b=kind, c=mps, d=rt: RequestHarness(a, b, c, d))
         tag = f"{'dist' if ab else 'block'}_{kind}_mps{mps}{'_rt' if rt else ''}"
-        qs.append(Query(f"bmc_r_{tag}", f, K, timeout=900, split=True, required=(mps == 8),
-                        covers=(["full_packet", "short_packet", "zlp", "stall", "continuation", "exact_multiple_zlp",
-                                 "retransmission", "status_after_data"] if quick else None),
+        kfree = mps + (6 if quick else 10)
+        qs.append(Query(f"bmc_r_{tag}", f, kfree, timeout=900, required=(mps == 8), covers=[],
                         asserts=stmt if quick else None,
-                        desc=f"request level {tag}: host model (IN / ACK delivered or lost / status), setup fields const symbolic"))
+                        desc=f"request level {tag}: host model (IN / ACK delivered or lost / status), setup fields const "
+                             "symbolic, tx.ready free: first packet"))
+        qs.append(Query(f"bmc_r_ready1_{tag}", f, K, timeout=900, required=(mps == 8),
+                        layer={"ready": 1}, asserts=stmt,
+                        covers=["full_packet", "short_packet", "zlp", "stall", "continuation", "exact_multiple_zlp",
+                                "retransmission", "status_after_data"] + ([] if quick else ["third_packet", "cut_by_wlength"]),
+                        desc=f"layer: tx.ready always 1 (PHY never stalls).  request level {tag}: whole data stage "
+                             "(continuation packets, lost ACK + retry, terminating short packet / ZLP, status)"))
         if not quick or not rt:
             qs.append(Query(f"cosim_r_{tag}", f, 0, kind="cosim", cosim_cycles=200 if quick else 500))
     return qs
